@@ -10,10 +10,11 @@ Variable code : list instr.
 Notation steps := (steps nt code).
 Notation G2 := (G2 nt code).
 Notation G c ws T := (Gen.G2 nt code c ws T T).
-Notation Tend := (Tend nt code).
+Notation TendL := (Gen.Tend nt code).
 Notation at_ := (at_ code).
 Notation code_at := (code_at code).
 Variable fu : nat.
+Notation Tend := (Gen.Tend nt code fu).
 (* the statement for every smaller fuel (the outer induction of the theorem) *)
 Hypothesis IHfu : forall m, m < fu -> forall q, Lemmas.Impl nt code m q.
 Notation Impl := (Impl nt code fu).
@@ -26,28 +27,40 @@ Ltac impl_intro :=
   intros sc cur base Hfr ce pc nv sn cq nv' sn' Hc Hat rho v st fk vs n n0 o ko g K K0 P HE Hn Hko Hoo Hlen HK1 HK2 HK0 c [S1 S2] HP;
   pose proof (frameOK_cur _ _ _ Hfr) as Hcur.
 Ltac cl := first [apply cle_refl | unfold cle; simpl; lia].
+Ltac ctrle := simpl; unfold cle in *; simpl in *; lia.
 (* a tail: either the denotation ran out of fuel (nothing to show) or the machine reached the base forks *)
 Tactic Notation "tend_inv" hyp(H) "as" simple_intropattern(p) :=
   let EF := fresh "EF" in
-  destruct (Tend_inv _ _ _ _ _ _ H) as [EF|p];
-  [try (inversion EF; subst); try rewrite EF; try exact I|].
+  let HFu := fresh "HFu" in
+  destruct (Tend_inv _ _ _ _ _ _ _ H) as [[EF HFu]|p];
+  [try (inversion EF; subst); try rewrite EF;
+   try (apply Tend_fuel; first [exact HFu | eapply Tfuel_mono; [|exact HFu]; simpl; lia])|].
 
-Lemma Tend_weaken : forall c fin (P P' : list sv -> nat -> gx -> Prop) s,
-  (forall a m g, P a m g -> P' a m g) -> Tend c fin P s -> Tend c fin P' s.
+Lemma Tend_weaken : forall lb c fin (P P' : list sv -> nat -> gx -> Prop) s,
+  (forall a m g, P a m g -> P' a m g) -> TendL lb c fin P s -> TendL lb c fin P' s.
 Proof.
-  intros c fin P P' s H HT. destruct (Tend_inv _ _ _ _ _ _ HT) as [->|(e & vs & n & g & St & Ch & Le & HE & HP)]; [exact I|].
+  intros lb c fin P P' s H HT. destruct (Tend_inv _ _ _ _ _ _ _ HT) as [[-> HFu]|(e & vs & n & g & St & Ch & Le & HE & HP)]; [exact HFu|].
   apply Tend_of. exists e, vs, n, g. auto 6.
 Qed.
 
-Lemma Tend_sub : forall cb c fin (P : list sv -> nat -> gx -> Prop) s,
+Lemma Tend_sub : forall lb cb c fin (P : list sv -> nat -> gx -> Prop) s,
   g_sc cb = g_sc c -> g_base cb = g_base c -> ce_lbls (g_ce cb) = ce_lbls (g_ce c) -> (forall i, g_own cb i -> g_own c i) ->
-  Tend cb fin P s -> Tend c fin P s.
+  g_ctr c <= g_ctr cb ->
+  TendL lb cb fin P s -> TendL lb c fin P s.
 Proof.
-  intros cb c fin P s H0 H1 H2 H3 HT. destruct (Tend_inv _ _ _ _ _ _ HT) as [->|(e & vs & n & g & St & Ch & Le & HE & HP)]; [exact I|].
+  intros lb cb c fin P s H0 H1 H2 H3 H4 HT. destruct (Tend_inv _ _ _ _ _ _ _ HT) as [[-> HFu]|(e & vs & n & g & St & Ch & Le & HE & HP)];
+    [apply Tend_fuel; eapply Tfuel_mono; [|exact HFu]; lia|].
   apply Tend_of. exists e, vs, n, g.
   rewrite <- H1, <- H0. split; [auto|]. split; [eapply chg_mono; eauto|]. split; [auto|]. split; [|auto].
   eapply encR_lbls; eauto.
 Qed.
+
+Lemma Tend_lb_mono : forall lb lb' c fin (P : list sv -> nat -> gx -> Prop) s, lb' <= lb -> TendL lb c fin P s -> TendL lb' c fin P s.
+Proof.
+  intros lb lb' c fin P s H HT. destruct (Tend_inv _ _ _ _ _ _ _ HT) as [[-> HFu]|HX];
+    [apply Tend_fuel; eapply Tfuel_mono; [|exact HFu]; lia|apply Tend_of; exact HX].
+Qed.
+Ltac tsub := apply Tend_sub; auto; try (simpl; intros; lia); try ctrle.
 
 (* the standard invariant threaded through a composition: environment, sizes, the caller's P *)
 Definition Jstd (sc : list frame) (ce : cenv) (rho : venv) (n0 lim o : nat) (P : list sv -> nat -> gx -> Prop)
@@ -91,8 +104,10 @@ Proof. intros [|? ?] K K0 i H Hi; auto. Qed.
 Lemma wk_same : forall (fk' : list fork) (P : list sv -> nat -> gx -> Prop), wk fk' P P = P.
 Proof. intros [|? ?] P; reflexivity. Qed.
 
-Lemma G_fuel : forall c (P : list sv -> nat -> gx -> Prop) s, G c [] (Tend c (Some XFuel) P) s.
-Proof. intros c P s. exists s. split; [apply steps_refl|]. split; [apply chg_refl|]. split; [apply cle_refl|exact I]. Qed.
+Lemma G_of_fuel : forall lb c (P : list sv -> nat -> gx -> Prop) s, Tfuel nt code lb c s -> G c [] (TendL lb c (Some XFuel) P) s.
+Proof. intros lb c P s H. exists s. split; [apply steps_refl|]. split; [apply chg_refl|]. split; [apply cle_refl|exact H]. Qed.
+Lemma G_fuel : forall c (P : list sv -> nat -> gx -> Prop) s, g_ctr c <= ctr (gx_of s) -> G c [] (TendL 0 c (Some XFuel) P) s.
+Proof. intros c P s H. apply G_of_fuel. exists s. split; [apply steps_refl|lia]. Qed.
 
 Lemma impl_id : Impl QId.
 Proof.
@@ -232,7 +247,7 @@ Proof.
     intros x1 y k h k' h' Hp Kq Hk. exact (S2' K x1 y k h k' h' HK0 Hp Kq Hk). }
   assert (JfK : forall g0 a b m x0 m' x0', Jf g0 a m x0 -> keepK0 c a b -> cle m x0 m' x0' -> Jf g0 b m' x0').
   { intros g0 p q m x0 m' x0' [Hp Hg] C Hm. split; [eapply HJwK; eauto|eapply HJgfK; eauto]. }
-  refine (G_fold nt code c1 c X J Jf fb ownb0 ceb eq_refl eq_refl eq_refl eq_refl eq_refl eq_refl eq_refl H4
+  refine (G_fold nt code fu c1 c X J Jf fb ownb0 ceb eq_refl eq_refl eq_refl eq_refl eq_refl eq_refl eq_refl H4
             _ _ _ _ _ _ Hlb _ _ JJf _ _ ws1 g s fin1 os x g' HA HJ Ht Ef).
   - simpl; intros; lia.
   - simpl. intros i Hi. apply Hob in Hi. lia.
@@ -322,7 +337,7 @@ Lemma impl_body : forall m q, Lemmas.Impl nt code m q -> forall sc cur base, fra
     (forall a b m x m' x', P a m x -> chg (fun i => base + nvq <= i < base + nvq' \/ o <= i) a b -> cle m x m' x' -> P b m' x') ->
     (forall a b m x m' x', P a m x -> keepK0 cx a b -> cle m x m' x' -> P b m' x') ->
     P vs n g ->
-    G cx (fst (den1 nt (call_of nt m) q rhoq v)) (Tend cx (snd (den1 nt (call_of nt m) q rhoq v)) P) (N sc pcq (SV v :: g_st cx) (g_base cx) vs n o g).
+    G cx (fst (den1 nt (call_of nt m) q rhoq v)) (TendL m cx (snd (den1 nt (call_of nt m) q rhoq v)) P) (N sc pcq (SV v :: g_st cx) (g_base cx) vs n o g).
 Proof.
   intros m q IH sc cur base Hfr ceq pcq nvq sn cq nvq' sn' Ec Hat cx rhoq v vs n o g P Hsc Hpc Hlb Hoff Hown Hk1 Hk2 Hk0 HE Hn Hko Hoo Hl Hct HP1 HP2 HP. pose proof (frameOK_cur _ _ _ Hfr) as Hcur.
   pose proof (IH sc cur base Hfr ceq pcq nvq sn cq nvq' sn' Ec Hat rhoq v (g_st cx) (g_base cx) vs n (g_n0 cx) o (g_koff cx) g
@@ -523,7 +538,7 @@ Proof.
                 eq_refl eq_refl eq_refl eq_refl _ _ _ (le_n _) (le_n _) _ _ _ _ (HB _ _ _ _ _ _ _ _ _ _)); auto; try lia.
       * simpl; intros; lia.
       * simpl. destruct Le4 as [_ Le4]. lia.
-      * intros s2'. apply Tend_sub; auto. simpl; intros; lia.
+      * intros s2'. tsub.
       * eapply envOK_lim; eauto. lia.
       * intros; apply HK1; lia.
       * eapply stable_P_sub; [exact S1'|exact S2'|exact (fun i H => H)|lia|lia|lia]. }
@@ -759,7 +774,7 @@ Proof.
                       (fun i => base + n1 <= i < base + nv') ce fk' o' z rho rho (base + nv) P (fun _ => True) (fun _ => True) v vs' n' eq_refl eq_refl) as HB.
         cbv zeta in HB.
         eapply G_impl; [|eapply (G_exit nt code sc (S pcc + length ca) (e + length cb)); [|apply HB; auto; try lia]].
-        -- intros s0. apply Tend_sub; auto.
+        -- intros s0. tsub.
         -- intros w' f vs2 n2' o2 g2. one st_jump. apply steps_refl.
         -- intros i Hi. split; [lia|apply HK1; lia].
         -- eapply envOK_lim; eauto. lia.
@@ -1050,7 +1065,7 @@ Proof.
                   eq_refl eq_refl eq_refl eq_refl _ _ _ (le_n _) (le_n _) _ _ _ _ (HB _ _ _ _ _ _ _ _ _ _)); auto; try lia.
         * simpl; intros; lia.
         * simpl. destruct Le4; lia.
-        * intros s2'. apply Tend_sub; auto. simpl; intros; lia.
+        * intros s2'. tsub.
         * eapply envOK_lim; eauto. lia.
         * intros; apply HK1; lia.
         * eapply stable_P_sub; [exact S1'|exact S2'|exact (fun i H => H)|lia|lia|lia].
@@ -1166,7 +1181,8 @@ Proof.
         apply Hin. split; [eapply Jstd_update; eauto; lia|exact UN'].
       - split; [split; auto|exact UN]. }
     destruct HG as (s' & St & Ch & Le & HT). simpl in Ch, Le.
-    destruct (Tend_inv _ _ _ _ _ _ HT) as [->|(e & vs4 & n4 & g4 & St4 & Ch4 & Le4 & HE4 & (HP4 & Hg4))]; [cbn [fst snd]; apply G_fuel|].
+    destruct (Tend_inv _ _ _ _ _ _ _ HT) as [[-> HFu]|(e & vs4 & n4 & g4 & St4 & Ch4 & Le4 & HE4 & (HP4 & Hg4))];
+      [cbn [fst snd]; apply G_of_fuel; eapply Tfuel_pre; [exact St|]; eapply Tfuel_mono; [|exact HFu]; ctrle|].
     simpl in St4, Ch4. cbn [g_sc g_ce c0 ctx_of] in HE4.
     assert (Ch' : chg (g_own c) vs1 vs4) by (eapply chg_trans; eauto).
     assert (Le' : cle n g n4 g4) by (eapply cle_trans; eauto).
@@ -1296,7 +1312,7 @@ Proof.
                     eq_refl eq_refl eq_refl eq_refl _ _ _ (le_n _) (le_n _) _ _ _ _ (HB _ _ _ _ _ _ _ _ _ _)); auto; try lia.
           -- simpl; intros; lia.
           -- simpl. simpl in Hz. destruct Le4; lia.
-          -- intros s2'. apply Tend_sub; auto. simpl; intros; lia.
+          -- intros s2'. tsub.
           -- eapply envOK_lim; eauto. lia.
           -- intros; apply HK1; lia.
           -- eapply stable_P_sub; [exact S1'|exact S2'|exact (fun i H => H)|lia|lia|lia].
@@ -1309,7 +1325,7 @@ Qed.
 
 (* G_fold with the invariant J = Jstd /\ Jg, for contexts given by arbitrary own sets; Jf is the tail
    predicate the caller needs *)
-Lemma fold_gen : forall (c1 c : gctx) rho lim ol (P : list sv -> nat -> gx -> Prop) (X : Type) (Jg : X -> list sv -> Prop)
+Lemma fold_gen_lb : forall lb (c1 c : gctx) rho lim ol (P : list sv -> nat -> gx -> Prop) (X : Type) (Jg : X -> list sv -> Prop)
    (Jf : X -> list sv -> nat -> gx -> Prop)
    (fb : X -> jv -> list jv * option exn * X) (ownb0 : nat -> Prop) (ceb : cenv),
    let J := fun g a m x => Jstd (g_sc c) (g_ce c) rho (g_n0 c) lim ol P a m x /\ Jg g a in
@@ -1326,20 +1342,22 @@ Lemma fold_gen : forall (c1 c : gctx) rho lim ol (P : list sv -> nat -> gx -> Pr
    (forall g a m x, J g a m x -> Jf g a m x) ->
    (forall w g fk' vs n o x os xx g', J g vs n x -> g_off c <= o <= length vs -> g_ctr c <= ctr x ->
         Forall (fun f => g_ctr c <= f_ctr f) fk' -> fb g w = (os, xx, g') ->
-        G (cbody c ownb0 ceb fk' o (ctr x)) os (Tend (cbody c ownb0 ceb fk' o (ctr x)) xx (wk fk' (J g') (Jf g')))
+        G (cbody c ownb0 ceb fk' o (ctr x)) os (TendL lb (cbody c ownb0 ceb fk' o (ctr x)) xx (wk fk' (J g') (Jf g')))
           (N (g_sc c) (g_pc c1) (SV w :: g_st c1) (fk' ++ g_base c) vs n o x)) ->
    forall ws1 g s fin1 os x g',
-     G c1 ws1 (Tend c1 fin1 (fun _ _ _ => True)) s -> J g (vars_of s) (lbl_of s) (gx_of s) -> g_ctr c <= ctr (gx_of s) ->
+     G c1 ws1 (TendL lb c1 fin1 (fun _ _ _ => True)) s -> J g (vars_of s) (lbl_of s) (gx_of s) -> g_ctr c <= ctr (gx_of s) ->
      foldgen X fb ws1 g = (os, x, g') ->
-     G c os (Tend c (match x with Some e => Some e | None => fin1 end) (Jf g')) s.
+     G c os (TendL lb c (match x with Some e => Some e | None => fin1 end) (Jf g')) s.
 Proof.
-  intros c1 c rho lim ol P X Jg Jf fb ownb0 ceb J Hsc Hb Hce Hn0 Hoff Hctr Hko1 Hko Ho1 Hob Hoo Hk1 Hk01 Hkept Hlb HP HJg HJf HJJ Hbody ws1 g s fin1 os x g' HA HJ Hct Ef.
-  refine (G_fold nt code c1 c X J Jf fb ownb0 ceb Hsc Hb Hce Hn0 Hoff Hctr Hko1 Hko Ho1 Hob Hoo Hk1 Hk01 Hkept Hlb _ HJf HJJ _ Hbody ws1 g s fin1 os x g' HA HJ Hct Ef).
+  intros lb c1 c rho lim ol P X Jg Jf fb ownb0 ceb J Hsc Hb Hce Hn0 Hoff Hctr Hko1 Hko Ho1 Hob Hoo Hk1 Hk01 Hkept Hlb HP HJg HJf HJJ Hbody ws1 g s fin1 os x g' HA HJ Hct Ef.
+  refine (G_fold nt code lb c1 c X J Jf fb ownb0 ceb Hsc Hb Hce Hn0 Hoff Hctr Hko1 Hko Ho1 Hob Hoo Hk1 Hk01 Hkept Hlb _ HJf HJJ _ Hbody ws1 g s fin1 os x g' HA HJ Hct Ef).
   - intros g0 p q m y m' y' [(E & Hn & Hl & Hp) Hg] C Hm. split; [|eapply HJg; eauto].
     split; [|split; [destruct Hm; lia|split; [destruct C; lia|eapply HP; eauto]]].
     eapply envOK_same; [exact E|]. intros k Hk. apply C. intro Hc1. apply (Hkept k Hk). auto.
   - intros g0 p m y [(E & _) _]. eapply envOK_lblOK; eauto.
 Qed.
+
+Definition fold_gen := fold_gen_lb fu.
 
 Lemma Jstd_update_gen : forall sc ce rho n0 lim o (P : list sv -> nat -> gx -> Prop) vs n g k x vs',
   Jstd sc ce rho n0 lim o P vs n g -> update vs k x = Some vs' -> ~ kept sc ce k -> P vs' n g -> Jstd sc ce rho n0 lim o P vs' n g.
@@ -1593,8 +1611,9 @@ Proof.
   (* the reduction is over: back to the fork of reduce *)
   destruct HGB as (s' & St & Ch & Le & HT). simpl in Ch, Le.
   unfold f0. try rewrite Eds. fold updf. cbv beta iota.
-  destruct (Tend_inv _ _ _ _ _ _ HT) as [EF|(e & vs4 & n4 & g4 & St4 & Ch4 & Le4 & HE4 & ((E4 & Hn4 & Hl4 & HP4) & Hg4))].
-  { destruct (reduce_fold updf ws s0) as [acc|ex]; [destruct sx as [ex|]; [|discriminate EF]|]; inversion EF; subst; cbn [fst snd]; apply G_fuel. }
+  destruct (Tend_inv _ _ _ _ _ _ _ HT) as [[EF HFu]|(e & vs4 & n4 & g4 & St4 & Ch4 & Le4 & HE4 & ((E4 & Hn4 & Hl4 & HP4) & Hg4))].
+  { destruct (reduce_fold updf ws s0) as [acc|ex]; [destruct sx as [ex|]; [|discriminate EF]|]; inversion EF; subst; cbn [fst snd];
+      apply G_of_fuel; (eapply Tfuel_pre; [exact St|]); (eapply Tfuel_mono; [|exact HFu]); ctrle. }
   simpl in St4, Ch4. cbn [g_sc g_ce cB] in HE4.
   assert (Ch' : chg (fun i => (i = lo \/ base + n1 <= i < hi) \/ o' <= i) vs1 vs4) by (eapply chg_trans; eauto).
   assert (Le' : cle n' z n4 g4) by (eapply cle_trans; eauto).
@@ -1860,6 +1879,51 @@ Qed.
    above the current offset, linked to the captured scope idx; opret pops the frame, continues after the call and,
    when no fork created since the frame was pushed is pending, gives its variables back.  Whatever the callee's
    code does is given as a generator towards its opret *)
+Lemma G_leave : forall sc, sc <> [] -> forall idf o rpc stamp outer pr nvc, at_ pr Iret ->
+  forall cx cec (P : list sv -> nat -> gx -> Prop),
+    g_sc cx = sc -> g_pc cx = S rpc -> g_off cx <= o -> (forall i, o <= i -> g_own cx i) -> g_koff cx <= o -> g_ctr cx <= stamp ->
+    let sc' := Frame idf o rpc stamp sc outer :: sc in
+    let K' := fun i => g_keep cx i \/ o <= i < o + nvc in
+    let c' := ctx_of sc' pr (g_st cx) (g_base cx) (o + 0) (o + nvc) (o + nvc) (o + nvc) K' (g_keep0 cx) cec (g_n0 cx) (S stamp) in
+    (forall vs0 fin e, encR sc' cec vs0 fin e -> encR sc (g_ce cx) vs0 fin e) ->
+    forall lb lb', lb' <= S lb ->
+    forall ws fin s, G c' ws (TendL lb c' fin P) s -> G cx ws (TendL lb' cx fin P) s.
+Proof.
+  intros sc Hne idf o rpc stamp outer pr nvc A2 cx cec P Hsc Hpc Hoff Hown Hko Hct sc' K' c' Henc lb lb' Hlb.
+  assert (Hoc : forall i, g_own c' i -> g_own cx i) by (simpl; intros i Hi; apply Hown; lia).
+  assert (Tc : forall fin s, TendL lb c' fin P s -> TendL lb' cx fin P s).
+  { intros fin s HT. destruct (Tend_inv _ _ _ _ _ _ _ HT) as [[-> HFu]|(e & vs4 & n4 & g4 & St4 & Ch4 & Le4 & HE4 & HP4)];
+      [apply Tend_fuel; eapply Tfuel_mono; [|exact HFu]; simpl; lia|]. apply Tend_of. exists e, vs4, n4, g4.
+    split; [exact St4|]. split; [exact (chg_mono _ _ _ _ Hoc Ch4)|]. split; [exact Le4|]. split; [|exact HP4].
+    rewrite Hsc. apply Henc. exact HE4. }
+  induction ws as [|w ws IHws]; intros fin s HG.
+  - destruct HG as (s' & St & Ch & Le & HT). exists s'. split; [exact St|]. split; [exact (chg_mono _ _ _ _ Hoc Ch)|].
+    split; [exact Le|apply Tc; exact HT].
+  - simpl in HG. destruct HG as (fk' & vs3 & n3 & o3 & g3 & St & Ch & Le & [Ho Hfk] & R).
+    assert (Hfk' : Forall (fun f => g_ctr cx <= f_ctr f) fk').
+    { eapply Forall_impl; [|exact Hfk]. simpl. intros f Hf. lia. }
+    destruct fk' as [|f0 fk0].
+    + destruct R as [E R].
+      exists [], vs3, n3, (if (match [] ++ g_base cx with [] => true | f :: _ => f_ctr f <=? stamp end) then o else o3), g3.
+      split. { eapply steps_trans; [exact St|]. eapply steps_step; [|apply steps_refl]. rewrite Hsc, Hpc. eapply st_ret; [exact A2|exact Hne]. }
+      split; [exact (chg_mono _ _ _ _ Hoc Ch)|]. split; [exact Le|].
+      split. { split; [|exact Hfk']. simpl in Ho. destruct (match [] ++ g_base cx with [] => true | f :: _ => f_ctr f <=? stamp end); lia. }
+      split; [exact E|]. intros vs2 n2 g2 Kp L2. apply Tc. apply R; [exact Kp|exact L2].
+    + assert (Hnf : (f_ctr f0 <=? stamp) = false).
+      { apply Nat.leb_gt. inversion Hfk; subst. simpl in H1. lia. }
+      exists (f0 :: fk0), vs3, n3, o3, g3.
+      split. { eapply steps_trans; [exact St|]. eapply steps_step; [|apply steps_refl]. rewrite Hsc, Hpc.
+               etransitivity; [eapply st_ret; [exact A2|exact Hne]|]. simpl. rewrite Hnf. reflexivity. }
+      split; [exact (chg_mono _ _ _ _ Hoc Ch)|]. split; [exact Le|].
+      split. { split; [|exact Hfk']. simpl in Ho. lia. }
+      intros vs2 n2 g2 Kp L2.
+      assert (Kp' : keepS c' o3 vs3 vs2).
+      { eapply keepX_mono; [|exact Kp]. simpl. unfold K'. simpl in Ho. intros i [[Hi|Hi]|Hi]; [left; auto|right; lia|right; lia]. }
+      destruct (R vs2 n2 g2 Kp' L2) as [R1 R2]. split; [apply IHws; exact R1|].
+      intros x Hx. destruct (R2 x Hx) as (vs4 & n4 & g4 & St4 & Ch4 & Le4). exists vs4, n4, g4.
+      split; [exact St4|]. split; [exact (chg_mono _ _ _ _ Hoc Ch4)|exact Le4].
+Qed.
+
 Lemma G_enter : forall sc cur base, frameOK sc cur base ->
   forall idx pe idf nvc na pr, at_ pe (Iscope idf nvc na) -> at_ pr Iret ->
   forall cx cec (P : list sv -> nat -> gx -> Prop) stk vs n o g rpc,
@@ -1872,53 +1936,189 @@ Lemma G_enter : forall sc cur base, frameOK sc cur base ->
     let K' := fun i => g_keep cx i \/ o <= i < o + nvc in
     let c' := ctx_of sc' pr (g_st cx) (g_base cx) (o + 0) (o + nvc) (o + nvc) (o + nvc) K' (g_keep0 cx) cec (g_n0 cx) (ctr g1) in
     (forall vs0 fin e, encR sc' cec vs0 fin e -> encR sc (g_ce cx) vs0 fin e) ->
-    forall ws fin, G c' ws (Tend c' fin P) (N sc' (S pe) stk (g_base cx) vs' n (o + nvc) g1) ->
-    G cx ws (Tend cx fin P) (N sc pe stk (g_base cx) vs n o g).
+    forall lb lb', lb' <= S lb ->
+    forall ws fin, G c' ws (TendL lb c' fin P) (N sc' (S pe) stk (g_base cx) vs' n (o + nvc) g1) ->
+    G cx ws (TendL lb' cx fin P) (N sc pe stk (g_base cx) vs n o g).
 Proof.
-  intros sc cur base Hfr idx pe idf nvc na pr A1 A2 cx cec P stk vs n o g rpc Hsc Hpc Hoff Hown Hko Hlen Hct Hcr sc' vs' g1 K' c' Henc ws0 fin0 HG0.
+  intros sc cur base Hfr idx pe idf nvc na pr A1 A2 cx cec P stk vs n o g rpc Hsc Hpc Hoff Hown Hko Hlen Hct Hcr sc' vs' g1 K' c' Henc lb lb' Hlb ws0 fin0 HG0.
   assert (Hne : sc <> []) by (eapply frameOK_ne; eauto).
   assert (St0 : steps (N sc pe stk (g_base cx) vs n o g) (N sc' (S pe) stk (g_base cx) vs' n (o + nvc) g1)).
   { eapply steps_step; [eapply st_scope; [exact A1|exact Hcr]|]. apply steps_refl. }
-  assert (Hoc : forall i, g_own c' i -> g_own cx i) by (simpl; intros i Hi; apply Hown; lia).
-  assert (Tc : forall fin s, Tend c' fin P s -> Tend cx fin P s).
-  { intros fin s HT. tend_inv HT as (e & vs4 & n4 & g4 & St4 & Ch4 & Le4 & HE4 & HP4). apply Tend_of. exists e, vs4, n4, g4.
-    split; [exact St4|]. split; [exact (chg_mono _ _ _ _ Hoc Ch4)|]. split; [exact Le4|]. split; [|exact HP4].
-    rewrite Hsc. apply Henc. exact HE4. }
-  assert (Conv : forall ws fin s, G c' ws (Tend c' fin P) s -> G cx ws (Tend cx fin P) s).
-  { induction ws as [|w ws IHws]; intros fin s HG.
-    - destruct HG as (s' & St & Ch & Le & HT). exists s'. split; [exact St|]. split; [exact (chg_mono _ _ _ _ Hoc Ch)|].
-      split; [exact Le|apply Tc; exact HT].
-    - simpl in HG. destruct HG as (fk' & vs3 & n3 & o3 & g3 & St & Ch & Le & [Ho Hfk] & R).
-      assert (Hfk' : Forall (fun f => g_ctr cx <= f_ctr f) fk').
-      { eapply Forall_impl; [|exact Hfk]. simpl. intros f Hf. lia. }
-      destruct fk' as [|f0 fk0].
-      + destruct R as [E R].
-        exists [], vs3, n3, (if (match [] ++ g_base cx with [] => true | f :: _ => f_ctr f <=? ctr g end) then o else o3), g3.
-        split. { eapply steps_trans; [exact St|]. eapply steps_step; [|apply steps_refl]. rewrite Hsc, Hpc. eapply st_ret; [exact A2|exact Hne]. }
-        split; [exact (chg_mono _ _ _ _ Hoc Ch)|]. split; [exact Le|].
-        split. { split; [|exact Hfk']. rewrite Hoff. destruct (match [] ++ g_base cx with [] => true | f :: _ => f_ctr f <=? ctr g end); lia. }
-        split; [exact E|]. intros vs2 n2 g2 Kp L2. apply Tc. apply R; [exact Kp|exact L2].
-      + assert (Hnf : (f_ctr f0 <=? ctr g) = false).
-        { apply Nat.leb_gt. inversion Hfk; subst. simpl in H1. lia. }
-        exists (f0 :: fk0), vs3, n3, o3, g3.
-        split. { eapply steps_trans; [exact St|]. eapply steps_step; [|apply steps_refl]. rewrite Hsc, Hpc.
-                 etransitivity; [eapply st_ret; [exact A2|exact Hne]|]. simpl. rewrite Hnf. reflexivity. }
-        split; [exact (chg_mono _ _ _ _ Hoc Ch)|]. split; [exact Le|].
-        split. { split; [|exact Hfk']. rewrite Hoff. lia. }
-        intros vs2 n2 g2 Kp L2.
-        assert (Kp' : keepS c' o3 vs3 vs2).
-        { eapply keepX_mono; [|exact Kp]. simpl. unfold K'. intros i [[Hi|Hi]|Hi]; [left; auto|right; lia|right; lia]. }
-        destruct (R vs2 n2 g2 Kp' L2) as [R1 R2]. split; [apply IHws; exact R1|].
-        intros x Hx. destruct (R2 x Hx) as (vs4 & n4 & g4 & St4 & Ch4 & Le4). exists vs4, n4, g4.
-        split; [exact St4|]. split; [exact (chg_mono _ _ _ _ Hoc Ch4)|exact Le4]. }
   eapply G_pre; [exact St0| |unfold g1; cl|].
   { simpl. split; [apply grow_len_le|]. intros i Hi. symmetry. apply grow_nth.
     destruct (Nat.lt_ge_cases i (length vs)) as [Hl|Hl]; [exact Hl|]. exfalso. apply Hi, Hown. lia. }
-  apply Conv. exact HG0.
+  apply (G_leave sc Hne idf o rpc (ctr g) (outer_of sc idf idx) pr nvc A2 cx cec P Hsc Hpc ltac:(lia) Hown Hko Hct Henc lb lb' Hlb). exact HG0.
+Qed.
+
+(* the same entry through opcallrec, executed in a frame F1 (an activation of the same function) whose caller is
+   described by cx: opscope first pops F1 (giving its slots back when no fork created since its push is pending) and
+   pushes the new frame with F1's return pc and saveindex; the callee's outputs go directly to F1's caller *)
+Lemma G_enter_rec : forall scR, scR <> [] ->
+  forall pe idf nvc na pr, at_ pe (Iscope idf nvc na) -> at_ pr Iret ->
+  forall cx cec (P : list sv -> nat -> gx -> Prop) stk vs n o g rpc id1 oF stampF outerF tl idx,
+    g_sc cx = scR -> g_pc cx = S rpc -> g_off cx <= oF -> oF <= o ->
+    (forall i, oF <= i -> g_own cx i) -> g_koff cx <= oF -> o <= length vs -> g_ctr cx <= ctr g ->
+    creg g = (None, idx) ->
+    let o2 := if (match g_base cx with [] => true | f :: _ => f_ctr f <=? stampF end) then oF else o in
+    let sc' := Frame idf o2 rpc (ctr g) scR (outer_of scR idf idx) :: scR in
+    let vs' := grow vs (o2 + nvc) in
+    let g1 := {| ctr := S (ctr g); creg := creg g |} in
+    let K' := fun i => g_keep cx i \/ o2 <= i < o2 + nvc in
+    let c' := ctx_of sc' pr (g_st cx) (g_base cx) (o2 + 0) (o2 + nvc) (o2 + nvc) (o2 + nvc) K' (g_keep0 cx) cec (g_n0 cx) (ctr g1) in
+    (forall vs0 fin e, encR sc' cec vs0 fin e -> encR scR (g_ce cx) vs0 fin e) ->
+    forall lb lb', lb' <= S lb ->
+    forall ws fin, G c' ws (TendL lb c' fin P) (N sc' (S pe) stk (g_base cx) vs' n (o2 + nvc) g1) ->
+    G cx ws (TendL lb' cx fin P) (N (Frame id1 oF rpc stampF scR outerF :: tl) pe stk (g_base cx) vs n o g).
+Proof.
+  intros scR Hne pe idf nvc na pr A1 A2 cx cec P stk vs n o g rpc id1 oF stampF outerF tl idx Hsc Hpc Hoff HoF Hown Hko Hlen Hct Hcr
+         o2 sc' vs' g1 K' c' Henc lb lb' Hlb ws0 fin0 HG0.
+  assert (Ho2 : oF <= o2 <= o) by (unfold o2; destruct (match g_base cx with [] => true | f :: _ => f_ctr f <=? stampF end); lia).
+  assert (St0 : steps (N (Frame id1 oF rpc stampF scR outerF :: tl) pe stk (g_base cx) vs n o g)
+                      (N sc' (S pe) stk (g_base cx) vs' n (o2 + nvc) g1)).
+  { eapply steps_step; [eapply st_scope_rec; [exact A1|exact Hcr]|]. apply steps_refl. }
+  eapply G_pre; [exact St0| |unfold g1; cl|].
+  { simpl. split; [apply grow_len_le|]. intros i Hi. symmetry. apply grow_nth.
+    destruct (Nat.lt_ge_cases i (length vs)) as [Hl|Hl]; [exact Hl|]. exfalso. apply Hi, Hown. lia. }
+  apply (G_leave scR Hne idf o2 rpc (ctr g) (outer_of scR idf idx) pr nvc A2 cx cec P Hsc Hpc ltac:(lia)
+           ltac:(intros i Hi; apply Hown; lia) ltac:(lia) Hct Henc lb lb' Hlb). exact HG0.
 Qed.
 
 (* the callee is the code of a query (a closure, a parameterless function): its environment ce must be valid in
    the captured scope idx (its slots belong to scopes older than the callee's) *)
+
+(* ---- a call in tail position (optimizeTailRec): local soundness of opcallrec ----
+   F1 = Frame id1 oF rpc stampF scR outerF is the frame on top; cx describes F1's caller (scope chain scR, exit after
+   the call that created F1).  G_enter_le / G_body_in: the two halves of G_call, the entry with [g_off cx <= o]. *)
+Lemma G_enter_le : forall sc cur base, frameOK sc cur base ->
+  forall idx pe idf nvc na pr, at_ pe (Iscope idf nvc na) -> at_ pr Iret ->
+  forall cx cec (P : list sv -> nat -> gx -> Prop) stk vs n o g rpc,
+    g_sc cx = sc -> g_pc cx = S rpc -> g_off cx <= o ->
+    (forall i, o <= i -> g_own cx i) -> g_koff cx <= o -> o <= length vs -> g_ctr cx <= ctr g ->
+    creg g = (Some rpc, idx) ->
+    let sc' := Frame idf o rpc (ctr g) sc (outer_of sc idf idx) :: sc in
+    let vs' := grow vs (o + nvc) in
+    let g1 := {| ctr := S (ctr g); creg := creg g |} in
+    let K' := fun i => g_keep cx i \/ o <= i < o + nvc in
+    let c' := ctx_of sc' pr (g_st cx) (g_base cx) (o + 0) (o + nvc) (o + nvc) (o + nvc) K' (g_keep0 cx) cec (g_n0 cx) (ctr g1) in
+    (forall vs0 fin e, encR sc' cec vs0 fin e -> encR sc (g_ce cx) vs0 fin e) ->
+    forall lb lb', lb' <= S lb ->
+    forall ws fin, G c' ws (TendL lb c' fin P) (N sc' (S pe) stk (g_base cx) vs' n (o + nvc) g1) ->
+    G cx ws (TendL lb' cx fin P) (N sc pe stk (g_base cx) vs n o g).
+Proof.
+  intros sc cur base Hfr idx pe idf nvc na pr A1 A2 cx cec P stk vs n o g rpc Hsc Hpc Hoff Hown Hko Hlen Hct Hcr sc' vs' g1 K' c' Henc lb lb' Hlb ws0 fin0 HG0.
+  assert (Hne : sc <> []) by (eapply frameOK_ne; eauto).
+  assert (St0 : steps (N sc pe stk (g_base cx) vs n o g) (N sc' (S pe) stk (g_base cx) vs' n (o + nvc) g1)).
+  { eapply steps_step; [eapply st_scope; [exact A1|exact Hcr]|]. apply steps_refl. }
+  eapply G_pre; [exact St0| |unfold g1; cl|].
+  { simpl. split; [apply grow_len_le|]. intros i Hi. symmetry. apply grow_nth.
+    destruct (Nat.lt_ge_cases i (length vs)) as [Hl|Hl]; [exact Hl|]. exfalso. apply Hi, Hown. lia. }
+  apply (G_leave sc Hne idf o rpc (ctr g) (outer_of sc idf idx) pr nvc A2 cx cec P Hsc Hpc Hoff Hown Hko Hct Henc lb lb' Hlb). exact HG0.
+Qed.
+
+Lemma G_body_in : forall m q, Lemmas.Impl nt code m q ->
+  forall idx ce pe idf cb nvc s0 s1, ce_lt ce idf = true ->
+  comp q ce idf (S pe) 0 s0 = Some (cb, nvc, s1) -> code_at (S pe) cb ->
+  forall sc' o, frameOK sc' idf o -> pushed idx idf sc' ->
+  forall (K K0 : nat -> Prop) st fk n0 rho v (P : list sv -> nat -> gx -> Prop) vs vs' n g1 lim,
+    envOK idx ce rho vs n0 lim -> lim <= o -> (forall a, a < lim -> nth_error vs' a = nth_error vs a) ->
+    n0 <= n -> o + nvc <= length vs' ->
+    (forall i, kept idx ce i -> K i) -> (forall i, K0 i -> K i) ->
+    let K' := fun i => K i \/ o <= i < o + nvc in
+    let c' := ctx_of sc' (S pe + length cb) st fk (o + 0) (o + nvc) (o + nvc) (o + nvc) K' K0 ce n0 (ctr g1) in
+    (forall a b m0 x m' x', P a m0 x -> chg (fun i => o <= i) a b -> cle m0 x m' x' -> P b m' x') ->
+    (forall a b m0 x m' x', P a m0 x -> keepX K0 a b -> cle m0 x m' x' -> P b m' x') ->
+    P vs' n g1 ->
+    G c' (fst (den1 nt (call_of nt m) q rho v)) (TendL m c' (snd (den1 nt (call_of nt m) q rho v)) P)
+      (N sc' (S pe) (SV v :: st) fk vs' n (o + nvc) g1).
+Proof.
+  intros m q IH idx ce pe idf cb nvc s0 s1 Hce Ec Hatc sc' o Hfr' Hps K K0 st fk n0 rho v P vs vs' n g1 lim HE Hlim Hag Hn Hl' HK2 HK0 K' c' HP1 HP2 HP.
+  assert (HE' : envOK sc' ce rho vs' n0 (o + 0)).
+  { rewrite Nat.add_0_r. eapply envOK_lim; [|exact Hlim]. eapply envOK_pushed; eauto. }
+  apply (IH sc' idf o Hfr' ce (S pe) 0 s0 cb nvc s1 Ec Hatc rho v st fk vs' n n0 (o + nvc) (o + nvc) g1 K' K0 P HE' Hn (le_n _) (le_n _) Hl').
+  - intros i Hi. right. lia.
+  - intros i Hi. left. apply HK2. eapply kept_pushed; eauto.
+  - intros i Hi. left. apply HK0. exact Hi.
+  - split.
+    + intros a b m0 x m' x' Hp C Hm. eapply HP1; [exact Hp| |exact Hm]. eapply chg_mono; [|exact C]. simpl; intros; lia.
+    + intros a b m0 x m' x' Hp C Hm. eapply HP2; [exact Hp|exact C|exact Hm].
+  - exact HP.
+Qed.
+
+(* entered by opcallrec from F1 *)
+Lemma G_call_rec : forall m q, Lemmas.Impl nt code m q -> forall scR, scR <> [] ->
+  forall idx ce pe idf cb nvc s0 s1, ce_lt ce idf = true -> at_ pe (Iscope idf nvc 0) ->
+  comp q ce idf (S pe) 0 s0 = Some (cb, nvc, s1) -> code_at (S pe) (cb ++ [Iret]) ->
+  forall cx rho v (P : list sv -> nat -> gx -> Prop) vs n o g rpc id1 oF stampF outerF tl,
+    g_sc cx = scR -> g_pc cx = S rpc -> g_off cx <= oF -> oF <= o ->
+    (forall vs' fin e, encR idx ce vs' fin e -> encR scR (g_ce cx) vs' fin e) ->
+    (forall i, oF <= i -> g_own cx i) -> (forall i, kept idx ce i -> g_keep cx i) -> (forall i, g_keep0 cx i -> g_keep cx i) ->
+    g_koff cx <= oF -> envOK idx ce rho vs (g_n0 cx) oF -> g_n0 cx <= n -> o <= length vs -> g_ctr cx <= ctr g ->
+    creg g = (None, idx) ->
+    (forall a b m0 x m' x', P a m0 x -> chg (fun i => oF <= i) a b -> cle m0 x m' x' -> P b m' x') ->
+    (forall a b m0 x m' x', P a m0 x -> keepK0 cx a b -> cle m0 x m' x' -> P b m' x') ->
+    P vs n g ->
+    forall lb', lb' <= S m ->
+    G cx (fst (den1 nt (call_of nt m) q rho v)) (TendL lb' cx (snd (den1 nt (call_of nt m) q rho v)) P)
+      (N (Frame id1 oF rpc stampF scR outerF :: tl) pe (SV v :: g_st cx) (g_base cx) vs n o g).
+Proof.
+  intros m q IH scR Hne idx ce pe idf cb nvc s0 s1 Hce A1 Ec Hat cx rho v P vs n o g rpc id1 oF stampF outerF tl
+         Hsc Hpc Hoff HoF Henc Hown HK2 HK0 Hko HE Hn Hlen Hct Hcr HP1 HP2 HP lb' Hlb.
+  destruct (code_at_app _ _ _ _ Hat) as [Hatc Hat2]. uncons Hat2 A2.
+  set (pr := S pe + length cb) in *.
+  set (o2 := if (match g_base cx with [] => true | f :: _ => f_ctr f <=? stampF end) then oF else o).
+  assert (Ho2 : oF <= o2 <= o) by (unfold o2; destruct (match g_base cx with [] => true | f :: _ => f_ctr f <=? stampF end); lia).
+  set (sc' := Frame idf o2 rpc (ctr g) scR (outer_of scR idf idx) :: scR).
+  set (vs' := grow vs (o2 + nvc)).
+  set (g1 := {| ctr := S (ctr g); creg := creg g |}).
+  assert (Hps : pushed idx idf sc') by (exists o2, rpc, (ctr g), scR, scR; reflexivity).
+  refine (G_enter_rec scR Hne pe idf nvc 0 pr A1 A2 cx ce P (SV v :: g_st cx) vs n o g rpc id1 oF stampF outerF tl idx
+           Hsc Hpc Hoff HoF Hown Hko Hlen Hct Hcr _ m lb' Hlb _ _ _).
+  - intros vs0 fin e HEn. apply Henc. eapply encR_pushed; eauto.
+  - fold o2 sc' vs' g1.
+    assert (Hfr' : frameOK sc' idf o2) by (exists rpc, (ctr g), scR, (outer_of scR idf idx), scR; reflexivity).
+    apply (G_body_in m q IH idx ce pe idf cb nvc s0 s1 Hce Ec Hatc sc' o2 Hfr' Hps (g_keep cx) (g_keep0 cx) (g_st cx) (g_base cx) (g_n0 cx)
+             rho v P vs vs' n g1 oF HE ltac:(lia)); auto.
+    + intros a Ha. apply grow_nth. lia.
+    + apply grow_len.
+    + intros a b m0 x m' x' Hp C Hm. eapply HP1; [exact Hp| |exact Hm]. eapply chg_mono; [|exact C]. simpl; intros; lia.
+    + eapply HP1; [exact HP| |unfold g1; cl]. split; [apply grow_len_le|]. intros i Hi. symmetry. apply grow_nth. lia.
+Qed.
+
+(* entered by an ordinary call (the [g_off cx <= o] form of G_call) *)
+Lemma G_call_le : forall m q, Lemmas.Impl nt code m q -> forall sc cur base, frameOK sc cur base ->
+  forall idx ce pe idf cb nvc s0 s1, ce_lt ce idf = true -> at_ pe (Iscope idf nvc 0) ->
+  comp q ce idf (S pe) 0 s0 = Some (cb, nvc, s1) -> code_at (S pe) (cb ++ [Iret]) ->
+  forall cx rho v (P : list sv -> nat -> gx -> Prop) vs n o g rpc,
+    g_sc cx = sc -> g_pc cx = S rpc -> g_off cx <= o ->
+    (forall vs' fin e, encR idx ce vs' fin e -> encR sc (g_ce cx) vs' fin e) ->
+    (forall i, o <= i -> g_own cx i) -> (forall i, kept idx ce i -> g_keep cx i) -> (forall i, g_keep0 cx i -> g_keep cx i) ->
+    g_koff cx <= o -> envOK idx ce rho vs (g_n0 cx) o -> g_n0 cx <= n -> o <= length vs -> g_ctr cx <= ctr g ->
+    creg g = (Some rpc, idx) ->
+    (forall a b m0 x m' x', P a m0 x -> chg (fun i => o <= i) a b -> cle m0 x m' x' -> P b m' x') ->
+    (forall a b m0 x m' x', P a m0 x -> keepK0 cx a b -> cle m0 x m' x' -> P b m' x') ->
+    P vs n g ->
+    forall lb', lb' <= S m ->
+    G cx (fst (den1 nt (call_of nt m) q rho v)) (TendL lb' cx (snd (den1 nt (call_of nt m) q rho v)) P)
+      (N sc pe (SV v :: g_st cx) (g_base cx) vs n o g).
+Proof.
+  intros m q IH sc cur base Hfr idx ce pe idf cb nvc s0 s1 Hce A1 Ec Hat cx rho v P vs n o g rpc Hsc Hpc Hoff Henc Hown HK2 HK0 Hko HE Hn Hlen Hct Hcr HP1 HP2 HP lb' Hlb.
+  destruct (code_at_app _ _ _ _ Hat) as [Hatc Hat2]. uncons Hat2 A2.
+  set (pr := S pe + length cb) in *.
+  set (sc' := Frame idf o rpc (ctr g) sc (outer_of sc idf idx) :: sc).
+  set (vs' := grow vs (o + nvc)).
+  set (g1 := {| ctr := S (ctr g); creg := creg g |}).
+  assert (Hps : pushed idx idf sc') by (exists o, rpc, (ctr g), sc, sc; reflexivity).
+  refine (G_enter_le sc cur base Hfr idx pe idf nvc 0 pr A1 A2 cx ce P (SV v :: g_st cx) vs n o g rpc Hsc Hpc Hoff Hown Hko Hlen Hct Hcr _ m lb' Hlb _ _ _).
+  - intros vs0 fin e HEn. apply Henc. eapply encR_pushed; eauto.
+  - fold sc' vs' g1.
+    assert (Hfr' : frameOK sc' idf o) by (exists rpc, (ctr g), sc, (outer_of sc idf idx), sc; reflexivity).
+    apply (G_body_in m q IH idx ce pe idf cb nvc s0 s1 Hce Ec Hatc sc' o Hfr' Hps (g_keep cx) (g_keep0 cx) (g_st cx) (g_base cx) (g_n0 cx)
+             rho v P vs vs' n g1 o HE (le_n _)); auto.
+    + intros a Ha. apply grow_nth. lia.
+    + apply grow_len.
+    + eapply HP1; [exact HP| |unfold g1; cl]. split; [apply grow_len_le|]. intros i Hi. symmetry. apply grow_nth. lia.
+Qed.
+
 Lemma G_call : forall m q, Lemmas.Impl nt code m q -> forall sc cur base, frameOK sc cur base ->
   forall idx ce pe idf cb nvc s0 s1, ce_lt ce idf = true -> at_ pe (Iscope idf nvc 0) ->
   comp q ce idf (S pe) 0 s0 = Some (cb, nvc, s1) -> code_at (S pe) (cb ++ [Iret]) ->
@@ -1931,32 +2131,74 @@ Lemma G_call : forall m q, Lemmas.Impl nt code m q -> forall sc cur base, frameO
     (forall a b m0 x m' x', P a m0 x -> chg (fun i => o <= i) a b -> cle m0 x m' x' -> P b m' x') ->
     (forall a b m0 x m' x', P a m0 x -> keepK0 cx a b -> cle m0 x m' x' -> P b m' x') ->
     P vs n g ->
-    G cx (fst (den1 nt (call_of nt m) q rho v)) (Tend cx (snd (den1 nt (call_of nt m) q rho v)) P)
+    forall lb', lb' <= S m ->
+    G cx (fst (den1 nt (call_of nt m) q rho v)) (TendL lb' cx (snd (den1 nt (call_of nt m) q rho v)) P)
       (N sc pe (SV v :: g_st cx) (g_base cx) vs n o g).
 Proof.
-  intros m q IH sc cur base Hfr idx ce pe idf cb nvc s0 s1 Hce A1 Ec Hat cx rho v P vs n o g rpc Hsc Hpc Hoff Henc Hown HK2 HK0 Hko HE Hn Hlen Hct Hcr HP1 HP2 HP.
-  destruct (code_at_app _ _ _ _ Hat) as [Hatc Hat2]. uncons Hat2 A2.
-  set (pr := S pe + length cb) in *.
-  set (sc' := Frame idf o rpc (ctr g) sc (outer_of sc idf idx) :: sc).
-  set (vs' := grow vs (o + nvc)).
-  set (g1 := {| ctr := S (ctr g); creg := creg g |}).
-  assert (Hps : pushed idx idf sc') by (exists o, rpc, (ctr g), sc, sc; reflexivity).
-  apply (G_enter sc cur base Hfr idx pe idf nvc 0 pr A1 A2 cx ce P (SV v :: g_st cx) vs n o g rpc Hsc Hpc Hoff Hown Hko Hlen Hct Hcr).
-  - intros vs0 fin e HEn. apply Henc. eapply encR_pushed; eauto.
-  - fold sc' vs' g1.
-    assert (Hfr' : frameOK sc' idf o) by (exists rpc, (ctr g), sc, (outer_of sc idf idx), sc; reflexivity).
-    assert (HE' : envOK sc' ce rho vs' (g_n0 cx) (o + 0)).
-    { rewrite Nat.add_0_r. eapply envOK_pushed; eauto. intros a Ha. apply grow_nth. lia. }
-    assert (Hl' : o + nvc <= length vs') by apply grow_len.
-    apply (IH sc' idf o Hfr' ce (S pe) 0 s0 cb nvc s1 Ec Hatc rho v (g_st cx) (g_base cx) vs' n (g_n0 cx) (o + nvc) (o + nvc) g1
-             (fun i => g_keep cx i \/ o <= i < o + nvc) (g_keep0 cx) P HE' Hn (le_n _) (le_n _) Hl').
-    + intros i Hi. right. lia.
-    + intros i Hi. left. apply HK2. eapply kept_pushed; eauto.
-    + intros i Hi. left. apply HK0. exact Hi.
-    + split.
-      * intros a b m0 x m' x' Hp C Hm. eapply HP1; [exact Hp| |exact Hm]. eapply chg_mono; [|exact C]. simpl; intros; lia.
-      * intros a b m0 x m' x' Hp C Hm. eapply HP2; [exact Hp|exact C|exact Hm].
-    + eapply HP1; [exact HP| |unfold g1; cl]. split; [apply grow_len_le|]. intros i Hi. symmetry. apply grow_nth. lia.
+  intros m q IH sc cur base Hfr idx ce pe idf cb nvc s0 s1 Hce A1 Ec Hat cx rho v P vs n o g rpc Hsc Hpc Hoff Henc Hown HK2 HK0 Hko HE Hn Hlen Hct Hcr HP1 HP2 HP lb' Hlb.
+  apply (G_call_le m q IH sc cur base Hfr idx ce pe idf cb nvc s0 s1 Hce A1 Ec Hat cx rho v P vs n o g rpc Hsc Hpc ltac:(lia) Henc Hown HK2 HK0 Hko HE Hn
+           Hlen Hct Hcr HP1 HP2 HP lb' Hlb).
+Qed.
+
+(* local soundness of the rewrite: in the frame F1 (an activation of the function whose opscope is at pe, body q), at
+   a call of that function whose continuation is (through silent steps) F1's opret, the original `opcall pe` and the
+   rewritten `opcallrec pe` both give F1's caller the generator of the body *)
+Lemma tailcall_local_sound : forall m q, Lemmas.Impl nt code m q -> forall scR, scR <> [] ->
+  forall ce pe idf cb nvc s0 s1, ce_lt ce idf = true -> at_ pe (Iscope idf nvc 0) ->
+  comp q ce idf (S pe) 0 s0 = Some (cb, nvc, s1) -> code_at (S pe) (cb ++ [Iret]) ->
+  forall cx rho v (P : list sv -> nat -> gx -> Prop) vs n o g rpc oF stampF outerF pc,
+    let sc1 := Frame idf oF rpc stampF scR outerF :: scR in
+    g_sc cx = scR -> g_pc cx = S rpc -> g_off cx <= oF -> oF + nvc <= o ->
+    (forall vs' fin e, encR sc1 ce vs' fin e -> encR scR (g_ce cx) vs' fin e) ->
+    (forall i, oF <= i -> g_own cx i) -> (forall i, kept sc1 ce i -> g_keep cx i) -> (forall i, g_keep0 cx i -> g_keep cx i) ->
+    g_koff cx <= oF -> envOK sc1 ce rho vs (g_n0 cx) oF -> g_n0 cx <= n -> o <= length vs ->
+    g_ctr cx <= stampF -> stampF < ctr g ->
+    (forall a b m0 x m' x', P a m0 x -> chg (fun i => oF <= i) a b -> cle m0 x m' x' -> P b m' x') ->
+    (forall a b m0 x m' x', P a m0 x -> keepK0 cx a b -> cle m0 x m' x' -> P b m' x') ->
+    P vs n g ->
+    forall lb', lb' <= S m ->
+    let r := den1 nt (call_of nt m) q rho v in
+    let s := N sc1 pc (SV v :: g_st cx) (g_base cx) vs n o g in
+    (* the rewritten instruction *)
+    (at_ pc (Icallrec pe) -> G cx (fst r) (TendL lb' cx (snd r) P) s) /\
+    (* the original instruction, followed by opret *)
+    (at_ pc (Icallf pe) ->
+     (forall w f vs0 n0 o0 g0, steps (N sc1 (S pc) (SV w :: g_st cx) f vs0 n0 o0 g0)
+                                     (N sc1 (S pe + length cb) (SV w :: g_st cx) f vs0 n0 o0 g0)) ->
+     G cx (fst r) (TendL lb' cx (snd r) P) s).
+Proof.
+  intros m q IH scR Hne ce pe idf cb nvc s0 s1 Hce A1 Ec Hat cx rho v P vs n o g rpc oF stampF outerF pc sc1
+         Hsc Hpc Hoff HoF Henc Hown HK2 HK0 Hko HE Hn Hlen Hct Hst HP1 HP2 HP lb' Hlb r s.
+  split.
+  - (* opcallrec *)
+    intros A0. unfold s.
+    eapply G_pre; [one st_callrec; apply steps_refl|apply chg_refl|cl|].
+    apply (G_call_rec m q IH scR Hne sc1 ce pe idf cb nvc s0 s1 Hce A1 Ec Hat cx rho v P vs n o {| ctr := ctr g; creg := (None, sc1) |}
+             rpc idf oF stampF outerF scR); simpl; auto; try lia.
+    eapply HP1; [exact HP|apply chg_refl|cl].
+  - (* opcall; (jumps;) opret *)
+    intros A0 Hjmp. unfold s.
+    destruct (code_at_app _ _ _ _ Hat) as [Hatc Hat2]. uncons Hat2 A2.
+    set (pr := S pe + length cb) in *.
+    set (K1 := fun i => g_keep cx i \/ oF <= i < oF + nvc).
+    set (c1 := ctx_of sc1 (S pc) (g_st cx) (g_base cx) (oF + 0) (oF + nvc) (oF + nvc) (oF + nvc) K1 (g_keep0 cx) ce (g_n0 cx) (S stampF)).
+    set (c1r := ctx_of sc1 pr (g_st cx) (g_base cx) (oF + 0) (oF + nvc) (oF + nvc) (oF + nvc) K1 (g_keep0 cx) ce (g_n0 cx) (S stampF)).
+    apply (G_leave scR Hne idf oF rpc stampF outerF pr nvc A2 cx ce P Hsc Hpc Hoff Hown Hko Hct Henc lb' lb' (le_S _ _ (le_n _))).
+    fold sc1 K1 c1r.
+    refine (G_sub nt code c1r c1r (TendL lb' c1 (snd r) P) _ eq_refl eq_refl eq_refl eq_refl (fun _ H => H) (fun _ _ _ H => H) (fun _ _ H => H)
+              (le_n _) (le_n _) (le_n _) _ _ _ _).
+    { intros s3. tsub. }
+    apply (G_exit nt code sc1 (S pc) pr (g_st cx) (g_base cx) (g_own c1) K1 (g_keep0 cx) ce (g_n0 cx) (oF + nvc) (oF + nvc) (S stampF)
+             (TendL lb' c1 (snd r) P) (TendL lb' c1 (snd r) P) (Hjmp)).
+    eapply G_pre; [one st_callf; apply steps_refl|apply chg_refl|cl|].
+    assert (Hfr1 : frameOK sc1 idf oF) by (exists rpc, stampF, scR, outerF, scR; reflexivity).
+    apply (G_call_le m q IH sc1 idf oF Hfr1 sc1 ce pe idf cb nvc s0 s1 Hce A1 Ec Hat c1 rho v P vs n o {| ctr := ctr g; creg := (Some pc, sc1) |} pc);
+      simpl; auto; try lia.
+    + intros i Hi. unfold K1. left. apply HK2. exact Hi.
+    + intros i Hi. unfold K1. left. apply HK0. exact Hi.
+    + eapply envOK_lim; [exact HE|lia].
+    + intros a b m0 x m' x' Hp C Hm. eapply HP1; [exact Hp| |exact Hm]. eapply chg_mono; [|exact C]. simpl; intros; lia.
+    + eapply HP1; [exact HP|apply chg_refl|cl].
 Qed.
 
 (* ---- function definitions and calls ---- *)
@@ -2016,7 +2258,7 @@ Proof.
             (ctx_of sc (l + length cr) st fk (base + nv) (base + nv') o ko K K0 ce n0 (ctr g)) _ _
             eq_refl eq_refl eq_refl eq_refl (fun _ H => H) (fun _ _ _ H => H) (fun _ _ H => H) (le_n _) (le_n _) (le_n _) _ _ _
             (IHr sc cur base Hfr (add_fun ce f (S pc) (length ps)) l nv s1 cr nv' sn' Er Hatr ((f, BF ps body) :: rho) v st fk vs n n0 o ko g K K0 P _ Hn Hko Hoo Hlen HK1 _ HK0 _ HP)).
-  - intros s0. apply Tend_sub; auto.
+  - intros s0. tsub.
   - apply envOK_add_fun; [exact HE|].
     exists sn, nvb, cb, (S sn), s1. split; [exact A1|]. split; [|split; [exact Hatf|apply ce_lt_fun; exact Hce]].
     intros G. fold pre. replace (S pc + 1 + length pre) with (pc + 2 + length pre) by lia.
@@ -2219,7 +2461,8 @@ Lemma pv_loop :
   let Gc := kept sc (fun_env ce) in
   (forall i, Gc i -> i < limc) ->
   forall args pcs nps, Forall2 (fun a q => funOK code (S q) [] a (ce_env ce)) args pcs -> Forall (fun a => Impl a) args -> length args = nps ->
-  forall (z : bool) m body ceF pcb pslots cb nvb s0 s1 st, (z = false -> Lemmas.Impl nt code m body) ->
+  forall (z : bool) m body ceF pcb pslots cb nvb s0 s1 st lbm, (z = false -> Lemmas.Impl nt code m body) ->
+    lbm <= fu -> (if z then lbm = 0 else lbm <= m) ->
     comp body ceF idf pcb pslots s0 = Some (cb, nvb, s1) -> code_at pcb cb -> at_ (pcb + length cb) Iret ->
     ce_lbls ceF = [] -> ce_ghost ceF = Gc ->
   let evi := fun i => match nth_error args i with Some a => den a rho v | None => ([], None) end in
@@ -2242,18 +2485,19 @@ Lemma pv_loop :
     (forall a b m0 x m' x', PT a m0 x -> chg (fun i => o + S nps + j <= i < o + nvb \/ oo <= i) a b -> cle m0 x m' x' -> PT b m' x') ->
     (forall a b m0 x m' x', PT a m0 x -> keepK0 cx a b -> cle m0 x m' x' -> PT b m' x') ->
     PT vs n g ->
-    G cx (fst (bindpv evi k pvs rhoJ)) (Tend cx (snd (bindpv evi k pvs rhoJ)) PT) (N sc' pcx st (g_base cx) vs n oo g).
+    G cx (fst (bindpv evi k pvs rhoJ)) (TendL lbm cx (snd (bindpv evi k pvs rhoJ)) PT) (N sc' pcx st (g_base cx) vs n oo g).
 Proof.
   intros sc cur base Hfr ce rho limc v n0 sc' idf o Hfr' Hps Hlimc Gc HGlt args pcs nps HFa IHargs Hnps
-         z m body ceF pcb pslots cb nvb s0 s1 st IHb Hcomp Hatcb Aret HlF HgF evi k.
+         z m body ceF pcb pslots cb nvb s0 s1 st lbm IHb Hlb1 Hlb2 Hcomp Hatcb Aret HlF HgF evi k.
   pose proof (frameOK_cur _ _ _ Hfr') as Hcur'.
   induction pvs as [|[i x] r IH]; intros j ceJ rhoJ pcx cx PT vs n oo g HeF HlJ HgJ Hsl Hidx Hat Hpcx HE Hv0 Hclos HEc
          Hsc Hpc Hst Hoff Hce Hn0 Hko Hkoo Hlen Hn Hct Hown Hown2 HKf HKg HKk HK0 PT1 PT2 HPT.
   - (* all value parameters are bound: load the input, run the body *)
-    simpl in Hat, Hpcx, HeF, Hsl. uncons Hat A0. cbn [bindpv]. unfold k. destruct z; [cbn [fst snd]; apply G_fuel|].
+    simpl in Hat, Hpcx, HeF, Hsl. uncons Hat A0. cbn [bindpv]. unfold k. destruct z; [cbn [fst snd]; subst lbm; apply G_fuel; simpl; lia|].
     specialize (IHb eq_refl).
     eapply G_pre; [eapply steps_step; [eapply st_load; [exact A0|apply Hcur'|exact Hv0]|apply steps_refl]|apply chg_refl|cl|].
     replace (S pcx) with pcb by lia. rewrite <- Hst.
+    eapply G_impl; [intros s5 HT5; exact (Tend_lb_mono m lbm _ _ _ _ Hlb2 HT5)|].
     apply (impl_body m body IHb sc' idf o Hfr' ceF pcb pslots s0 cb nvb s1 Hcomp Hatcb cx rhoJ v vs n oo g PT); auto; try lia.
     + rewrite Hce, HlJ, HlF. reflexivity.
     + intros i Hi. apply Hown. lia.
@@ -2295,7 +2539,7 @@ Proof.
       eapply steps_step; [eapply st_load; [exact A2|apply Hcur'|apply (Hclos i q Eq)]|]. one st_callpc. apply steps_refl. }
     { apply chg_refl. }
     { unfold g2; cl. }
-    assert (HA : G c1 (fst (evi i)) (Tend c1 (snd (evi i)) (fun _ _ _ => True)) (N sc' (S q) (SV v :: st) (g_base cx) vs n oo g2)).
+    assert (HA : G c1 (fst (evi i)) (TendL lbm c1 (snd (evi i)) (fun _ _ _ => True)) (N sc' (S q) (SV v :: st) (g_base cx) vs n oo g2)).
     { unfold evi. rewrite Ea.
       apply (G_call fu a IHa sc' idf o Hfr' sc cea (S q) ida cba nva s0a s1a Hclta' Hsca Hcba' Hata c1 rho v (fun _ _ _ => True)
                vs n oo g2 (S (S (S pcx)))); simpl; auto; try lia.
@@ -2327,11 +2571,11 @@ Proof.
       - eapply envOKl_same; [exact H3| |].
         + intros x0 y0 k0 Hin Hk. apply C. apply HK2'. left. exists x0, y0. auto.
         + intros k0 Hk. apply C. apply HK2'. exact Hk. }
-    pose proof (fold_gen c1 cx rhoJ (o + S nps + j) oo PT unit Jg (fun _ => PT) fb ownb0 ceJ') as HF. cbv zeta in HF.
+    pose proof (fold_gen_lb lbm c1 cx rhoJ (o + S nps + j) oo PT unit Jg (fun _ => PT) fb ownb0 ceJ') as HF. cbv zeta in HF.
     cbn [bindpv]. fold f. unfold bind.
     pose proof (foldgen_bind f (fst (evi i))) as Ef. fold fb in Ef.
     destruct (bind_list (fst (evi i)) f) as [os xe] eqn:Eb. cbn [fst snd] in Ef.
-    assert (HG' : G cx os (Tend cx (match xe with Some e => Some e | None => snd (evi i) end) PT) (N sc' (S q) (SV v :: st) (g_base cx) vs n oo g2)).
+    assert (HG' : G cx os (TendL lbm cx (match xe with Some e => Some e | None => snd (evi i) end) PT) (N sc' (S q) (SV v :: st) (g_base cx) vs n oo g2)).
     { refine (HF (eq_sym Hsc) eq_refl (eq_sym Hce) (eq_sym Hn0) (eq_sym Hoff) eq_refl (eq_sym Hoff) ltac:(lia) _ _ _ _ _ _ _ _ _ _ _ _
                 (fst (evi i)) tt _ (snd (evi i)) os xe tt HA _ Hct Ef).
       - simpl. intros i0 Hi0. apply Hown. right. exact Hi0.
@@ -2381,7 +2625,7 @@ Proof.
                   (IH (S j) ceJ' ((x, BV w) :: rhoJ) (S (S (S (S (S (S pcx)))))) cx2 PT' vs3 n2 o2 x2 _ HlJ HgJ _ _ Hat _ _ _ _ _
                       eq_refl Hpc Hst eq_refl eq_refl Hn0 Hko _ _ Hn2 (le_n _) (fun _ H => H) _ HKf HKg _ _ _ _ _)).
         + simpl. unfold ownb0. intros i0 [Hi0|Hi0]; [left; lia|right; lia].
-        + intros s3. apply Tend_sub; auto. simpl. unfold ownb0. intros i0 [Hi0|Hi0]; [left; lia|right; lia].
+        + intros s3. apply Tend_sub; auto; try ctrle. simpl. unfold ownb0. intros i0 [Hi0|Hi0]; [left; lia|right; lia].
         + rewrite HeF. unfold ceJ'. simpl. rewrite <- app_assoc. reflexivity.
         + lia.
         + intros i0 x0 Hin. apply (Hidx i0 x0). right. exact Hin.
@@ -2441,7 +2685,7 @@ Proof.
     + (* no argument: opcall pc *)
       destruct ps as [|p0 ps']; [|discriminate Hlps]. cbn [bindps].
       case_eq fu; [intros Efu|intros m Efu].
-      { (* no fuel: nothing is claimed *) cbn [call_of fst snd]. apply G_fuel. }
+      { (* no fuel: nothing is claimed *) cbn [call_of fst snd]. apply G_fuel. unfold c; simpl; lia. }
       cbn [call_of]. assert (Hm : m < fu) by lia.
       inversion Hc; subst cq nv' sn'. clear Hc. uncons Hat A1.
       assert (Epcb : pcb = S p) by (unfold pcb, pl; simpl; lia). rewrite Epcb in *. simpl in HcbF.
@@ -2465,11 +2709,15 @@ Proof.
     + (* arguments: store v; the closures; load v; opcall pc *)
       destruct ps as [|p0 ps']; [discriminate Hlps|].
       (* the fuel of the call: none (z) or m for the body *)
-      assert (Hz : exists z m, (z = false -> Lemmas.Impl nt code m body) /\
+      assert (Hz : exists z m, (z = false -> Lemmas.Impl nt code m body) /\ fu = (if z then 0 else S m) /\
                  forall env, call_of nt fu body env v = if z then ([], Some XFuel) else den1 nt (call_of nt m) body env v).
-      { case_eq fu; [intros Efu; exists true, 0; split; [discriminate|reflexivity]|].
-        intros m Efu. exists false, m. split; [intros _; apply IHfu; lia|reflexivity]. }
-      destruct Hz as (z & m & IHb & Hkz).
+      { case_eq fu; [intros Efu; exists true, 0; split; [discriminate|split; reflexivity]|].
+        intros m Efu. exists false, m. split; [intros _; apply IHfu; lia|split; reflexivity]. }
+      destruct Hz as (z & m & IHb & Hfz & Hkz).
+      set (lbm := if z then 0 else m).
+      assert (HlbS : fu <= S lbm) by (rewrite Hfz; unfold lbm; destruct z; lia).
+      assert (Hlbfu : lbm <= fu) by (rewrite Hfz; unfold lbm; destruct z; lia).
+      assert (Hlbz : if z then lbm = 0 else lbm <= m) by (unfold lbm; destruct z; [reflexivity|lia]).
       set (nps := S (length ps')).
       assert (Hnps : length (a0 :: args') = nps) by (unfold nps; simpl in *; lia).
       set (evi := fun i => match nth_error (a0 :: args') i with Some a => den a rho v | None => ([], None) end).
@@ -2511,8 +2759,8 @@ Proof.
       { eapply chg_update; [exact U|]. simpl. lia. }
       { unfold g'. cl. }
       set (pr := pcb + length cb) in *.
-      apply (G_enter sc cur base Hfr sc p idf nvb (length (p0 :: ps')) pr Hscp Aret c ceF P (SV v :: clos ++ st) vs1 n o g' pcall);
-        try (simpl; auto; lia).
+      apply (G_enter sc cur base Hfr sc p idf nvb (length (p0 :: ps')) pr Hscp Aret c ceF P (SV v :: clos ++ st) vs1 n o g' pcall) with (lb := lbm);
+        try (simpl; auto; lia); try exact HlbS.
       { intros vs0 fin e HEn. destruct fin as [[e0|l0|]|]; simpl in *; auto. destruct HEn as (x & k & id & Hk & _). discriminate. }
       set (sc' := Frame idf o pcall (ctr g') sc (outer_of sc idf sc) :: sc).
       set (vs' := grow vs1 (o + nvb)).
@@ -2586,11 +2834,11 @@ Proof.
                 (ctx_of sc' pr st fk (o + 0) (o + nvb) (o + nvb) (o + nvb) K' K0 ceF n0 (ctr g1)) _ _
                 eq_refl eq_refl eq_refl eq_refl _ (fun _ _ _ H => H) (fun _ _ H => H) (le_n _) (le_n _) (le_n _) _ _ _
                 (pv_loop sc cur base Hfr ce rho (base + nv) v n0 sc' idf o Hfr' Hps ltac:(lia) HGlt (a0 :: args') pcs nps HFa' IHargs Hnps
-                   z m body ceF pcb (S nps + length pvs) cb nvb s0 s1 st IHb HcbF Hatcb Aret eq_refl eq_refl
+                   z m body ceF pcb (S nps + length pvs) cb nvb s0 s1 st lbm IHb Hlbfu Hlbz HcbF Hatcb Aret eq_refl eq_refl
                    pvs 0 ceJ rhoF pcx cx P vsB n (o + nvb) g1 _ eq_refl eq_refl _ _ Ppv _ HEJ HvB _ HEcB
                    eq_refl eq_refl eq_refl eq_refl eq_refl eq_refl (le_n _) (le_n _) _ Hn (le_n _) _ _ _ _ HKJ _ _ _ _)).
       { simpl. intros; lia. }
-      { intros s3. apply Tend_sub; auto. simpl. intros; lia. }
+      { intros s3. tsub. }
       { unfold ceF, ceJ, param_env. cbn [ce_env]. rewrite <- app_assoc. reflexivity. }
       { lia. }
       { intros i x Hin. apply pv_params_ge in Hin. unfold nps. simpl in Hin. lia. }
@@ -2620,7 +2868,7 @@ Proof.
               (ida & nva & cba & s0a & s1a & Hsca & Hcba & Hcodea & Hclta) & Htop & Hla & Hva & Hka).
     cbn [Den.den1]. rewrite Ea0, Hlf.
     case_eq fu; [intros Efu|intros m Efu].
-    { cbn [call_of fst snd]. apply G_fuel. }
+    { cbn [call_of fst snd]. apply G_fuel. unfold c; simpl; lia. }
     cbn [call_of]. assert (Hm : m < fu) by lia.
     set (cea := {| ce_env := cel_a; ce_lbls := []; ce_ghost := Ga |}).
     assert (Hcba' : comp a cea ida (S pa) 0 s0a = Some (cba, nva, s1a)).
@@ -2871,9 +3119,65 @@ Definition run_is (r : result) (o : list jv * ending) : Prop :=
   | Some XFuel => True
   end.
 
+Lemma run_S : forall code f s, run nt code (S f) s =
+  match step nt code s with
+  | Next s' => run nt code f s'
+  | Emit v s' => let '(o, e) := run nt code f s' in (v :: o, e)
+  | Halt None => ([], End)
+  | Halt (Some e) => ([], Error e)
+  | Stuck => ([], IsStuck)
+  end.
+Proof. reflexivity. Qed.
+
+(* the ghost push counter grows by at most one per step: reaching a state in which N more frames have been pushed
+   takes at least N steps *)
+Definition octr (o : outcome) (n : nat) : Prop :=
+  match o with Next s' | Emit _ s' => ctr (gx_of s') <= n | _ => True end.
+Lemma ctr_step : forall code s, octr (step nt code s) (S (ctr (gx_of s))).
+Proof.
+  intros code [pc bt e m|e fk vs l g]; cbn [step].
+  - destruct (nth_error code pc) as [x|]; [|simpl; auto].
+    destruct x; unfold brk, set_stk, set_vars, pushfork;
+      repeat (match goal with
+              | |- octr (match ?e with _ => _ end) _ => destruct e eqn:?
+              | |- octr (if ?e then _ else _) _ => destruct e eqn:?
+              | |- octr (let _ := _ in _) _ => cbv zeta
+              end); simpl; auto; try lia.
+  - destruct fk; simpl; auto.
+Qed.
+
+Inductive reach (code : list instr) : state -> state -> Prop :=
+| reach_refl : forall s, reach code s s
+| reach_next : forall s s1 s', step nt code s = Next s1 -> reach code s1 s' -> reach code s s'
+| reach_emit : forall s v s1 s', step nt code s = Emit v s1 -> reach code s1 s' -> reach code s s'.
+Lemma reach_trans : forall code a b c, reach code a b -> reach code b c -> reach code a c.
+Proof. induction 1; intros; auto; [eapply reach_next|eapply reach_emit]; eauto. Qed.
+Lemma steps_reach : forall code s s', steps nt code s s' -> reach code s s'.
+Proof. induction 1; [apply reach_refl|eapply reach_next; eauto]. Qed.
+Lemma reach_nohalt : forall code s s', reach code s s' ->
+  forall N, ctr (gx_of s) + N <= ctr (gx_of s') -> forall f, f <= N -> snd (run nt code f s) = OutOfFuel.
+Proof.
+  induction 1; intros N HN f Hf.
+  - assert (f = 0) by lia. subst. reflexivity.
+  - destruct f; [reflexivity|]. rewrite run_S, H. pose proof (ctr_step code s) as Hc. rewrite H in Hc. simpl in Hc.
+    apply (IHreach (N - 1)); lia.
+  - destruct f; [reflexivity|]. rewrite run_S, H. pose proof (ctr_step code s) as Hc. rewrite H in Hc. simpl in Hc.
+    specialize (IHreach (N - 1) ltac:(lia) f ltac:(lia)). destruct (run nt code f s1) as [o e']. exact IHreach.
+Qed.
+
+(* run is monotone in the fuel once it has an ending *)
+Lemma run_mono : forall code f s o e, run nt code f s = (o, e) -> e <> OutOfFuel -> forall f', f <= f' -> run nt code f' s = (o, e).
+Proof.
+  induction f; intros s o e H He f' Hf; [simpl in H; inversion H; subst; congruence|].
+  destruct f' as [|f']; [lia|]. rewrite run_S in *.
+  destruct (step nt code s) as [s1|v s1|[x|]|]; auto.
+  - apply (IHf s1 o e H He). lia.
+  - destruct (run nt code f s1) as [o1 e1] eqn:E1. inversion H; subst. rewrite (IHf s1 o1 e E1 He f') by lia. reflexivity.
+Qed.
+
 Section RunG.
 Variables (code : list instr) (rpc : nat) (c : gctx) (P : list sv -> nat -> gx -> Prop) (fin : option exn)
-          (id off stamp : nat) (outer : list frame).
+          (id off stamp : nat) (outer : list frame) (lb : nat).
 Hypothesis Hrpc : rpc = length code - 1.
 Hypothesis Hret : nth_error code rpc = Some Iret.
 Hypothesis Hsc : g_sc c = [Frame id off rpc stamp [] outer].
@@ -2882,9 +3186,9 @@ Hypothesis Hst : g_st c = [].
 Hypothesis Hbase : g_base c = [].
 Hypothesis Hce : g_ce c = ce_empty.
 
-Lemma run_tend : forall s, Tend nt code c fin P s -> exists f, run_is ([], fin) (run nt code f s).
+Lemma run_tend : forall s, Tend nt code lb c fin P s -> exists f, run_is ([], fin) (run nt code f s).
 Proof.
-  intros s HT. destruct (Tend_inv _ _ _ _ _ _ HT) as [->|(e & vs & n & g & St & _ & _ & HE & _)]; [exists 0; exact I|].
+  intros s HT. destruct (Tend_inv _ _ _ _ _ _ _ HT) as [[-> _]|(e & vs & n & g & St & _ & _ & HE & _)]; [exists 0; exact I|].
   rewrite Hbase in St. rewrite Hce in HE.
   assert (HR : exists f, run_is ([], fin) (run nt code f (B e [] vs n g))).
   { exists 1. unfold run_is. simpl. destruct fin as [[e0|l|]|]; simpl in HE.
@@ -2896,7 +3200,7 @@ Proof.
   destruct (run_steps _ _ _ St f _ eq_refl) as (f' & Hf'). exists f'. rewrite Hf'. exact Hf.
 Qed.
 
-Lemma run_G : forall ws s, Gen.G2 nt code c ws (Tend nt code c fin P) (Tend nt code c fin P) s ->
+Lemma run_G : forall ws s, Gen.G2 nt code c ws (Tend nt code lb c fin P) (Tend nt code lb c fin P) s ->
   exists f, run_is (ws, fin) (run nt code f s).
 Proof.
   induction ws as [|a ws IHws]; intros s HG.
@@ -2938,11 +3242,40 @@ Proof.
     destruct HR as (f' & Hf').
     destruct (run_steps _ _ _ St f' _ eq_refl) as (f'' & Hf''). exists f''. rewrite Hf''. exact Hf'.
 Qed.
+
+(* the denotation ran out of fuel: the machine reaches a state in which lb frames have been pushed *)
+Lemma run_G_fuel : fin = Some XFuel -> forall ws s, Gen.G2 nt code c ws (Tend nt code lb c fin P) (Tend nt code lb c fin P) s ->
+  exists s', reach code s s' /\ g_ctr c + lb <= ctr (gx_of s').
+Proof.
+  intros EF. subst fin. induction ws as [|a ws IHws]; intros s HG.
+  - simpl in HG. destruct HG as (s' & St & _ & _ & (s2 & St2 & Hc)). exists s2.
+    split; [apply steps_reach; eapply steps_trans; eauto|exact Hc].
+  - simpl in HG. destruct HG as (fk' & vs3 & n3 & o3 & g3 & St & _ & _ & _ & R).
+    rewrite Hsc, Hpc, Hst, Hbase in St.
+    set (o4 := if (match fk' ++ [] with [] => true | f :: _ => f_ctr f <=? stamp end) then off else o3).
+    set (g4 := {| ctr := ctr g3; creg := (Some (length code - 1), []) |}).
+    assert (E1 : step nt code (N [Frame id off rpc stamp [] outer] rpc (SV a :: []) (fk' ++ []) vs3 n3 o3 g3) =
+                 Emit a (Run rpc true None (mk [] [] (fk' ++ []) vs3 n3 o4 g4))).
+    { apply st_ret_main. exact Hret. }
+    assert (E2 : step nt code (Run rpc true None (mk [] [] (fk' ++ []) vs3 n3 o4 g4)) = Next (B None (fk' ++ []) vs3 n3 g4)).
+    { unfold mk. cbn [step]. rewrite Hret. reflexivity. }
+    assert (HR0 : exists s', reach code (B None (fk' ++ []) vs3 n3 g4) s' /\ g_ctr c + lb <= ctr (gx_of s')).
+    { destruct fk' as [|f0 fk0].
+      - destruct R as [E R]. subst ws. rewrite Hbase in R.
+        destruct (R vs3 n3 g4 (keepK0_refl _ _) ltac:(unfold cle; simpl; lia)) as (s2 & St2 & Hc).
+        exists s2. split; [apply steps_reach; exact St2|exact Hc].
+      - rewrite Hbase in R. destruct (R vs3 n3 g4 (keepS_refl _ _ _) ltac:(unfold cle; simpl; lia)) as [R1 _].
+        apply IHws. exact R1. }
+    destruct HR0 as (s' & Rs & Hc). exists s'. split; [|exact Hc].
+    eapply reach_trans; [apply steps_reach; exact St|]. eapply reach_emit; [exact E1|]. eapply reach_next; [exact E2|exact Rs].
+Qed.
 End RunG.
 
-(* for every fuel on which the denotation terminates, the machine terminates with the same observation *)
-Theorem compile_raw_correct : forall q code, compile_raw q = Some code ->
-  forall fu v, exists fuel, run_is (den nt fu q [] v) (run nt code fuel (init code v)).
+(* for every fuel on which the denotation terminates, the machine terminates with the same observation; when the
+   denotation runs out of fuel fu, the machine is still running after fu + 1 steps *)
+Lemma compile_raw_both : forall q code, compile_raw q = Some code ->
+  forall fu v, (exists fuel, run_is (den nt fu q [] v) (run nt code fuel (init code v))) /\
+               (snd (den nt fu q [] v) = Some XFuel -> forall f, f <= S fu -> snd (run nt code f (init code v)) = OutOfFuel).
 Proof.
   intros q code Hc fu v. unfold compile_raw in Hc.
   destruct (comp q ce_empty mainscope 1 0 2) as [[[c nv] sn']|] eqn:Ec; [|discriminate]. inversion Hc; subst code. clear Hc.
@@ -2967,13 +3300,19 @@ Proof.
                 (fun _ => True) (fun _ => True) (fun _ _ _ => True)) as HI.
   cbv zeta in HI.
   set (c0 := ctx_of sc0 (1 + length c) [] [] (0 + 0) (0 + nv) (0 + nv) (0 + nv) (fun _ => True) (fun _ => True) ce_empty 0 (ctr g1)) in HI.
-  assert (HG : Gen.G2 nt code c0 (fst (den nt fu q [] v)) (Tend nt code c0 (snd (den nt fu q [] v)) (fun _ _ _ => True))
-                 (Tend nt code c0 (snd (den nt fu q [] v)) (fun _ _ _ => True)) (N sc0 1 [SV v] [] vs0 0 (0 + nv) g1)).
+  assert (HG : Gen.G2 nt code c0 (fst (den nt fu q [] v)) (Tend nt code fu c0 (snd (den nt fu q [] v)) (fun _ _ _ => True))
+                 (Tend nt code fu c0 (snd (den nt fu q [] v)) (fun _ _ _ => True)) (N sc0 1 [SV v] [] vs0 0 (0 + nv) g1)).
   { apply HI; auto.
     - split; [constructor|split; [intros a k Hk; simpl in Hk; discriminate|intros i []]].
     - unfold vs0. apply grow_len.
     - split; auto. }
-  destruct (run_G code rpc c0 (fun _ _ _ => True) (snd (den nt fu q [] v)) mainscope 0 0 [] eq_refl Hret eq_refl
+  split.
+  2:{ intros EF f Hf.
+      destruct (run_G_fuel code rpc c0 (fun _ _ _ => True) (snd (den nt fu q [] v)) mainscope 0 0 [] fu eq_refl Hret eq_refl
+                  ltac:(simpl; lia) eq_refl eq_refl EF _ _ HG) as (s' & Rs & Hc).
+      apply (reach_nohalt code (init code v) s' (reach_next _ _ _ _ E0 Rs) (S fu)); [|exact Hf].
+      simpl in Hc. simpl. lia. }
+  destruct (run_G code rpc c0 (fun _ _ _ => True) (snd (den nt fu q [] v)) mainscope 0 0 [] fu eq_refl Hret eq_refl
               ltac:(simpl; lia) eq_refl eq_refl eq_refl _ _ HG) as (f & Hf).
   exists (S f).
   change (run nt code (S f) (init code v)) with
@@ -2982,5 +3321,40 @@ Proof.
      | Emit v s' => let '(o, e) := run nt code f s' in (v :: o, e)
      | Halt None => ([], End) | Halt (Some e) => ([], Error e) | Stuck => ([], IsStuck) end).
   rewrite E0. destruct (den nt fu q [] v) as [ws fin]. exact Hf.
+Qed.
+
+Theorem compile_raw_correct : forall q code, compile_raw q = Some code ->
+  forall fu v, exists fuel, run_is (den nt fu q [] v) (run nt code fuel (init code v)).
+Proof. intros q code Hc fu v. exact (proj1 (compile_raw_both q code Hc fu v)). Qed.
+
+Theorem compile_raw_fuel : forall q code, compile_raw q = Some code ->
+  forall fu v, snd (den nt fu q [] v) = Some XFuel -> forall f, f <= S fu -> snd (run nt code f (init code v)) = OutOfFuel.
+Proof. intros q code Hc fu v. exact (proj2 (compile_raw_both q code Hc fu v)). Qed.
+
+(* the converse: whenever the machine ends (with any ending other than running out of its own fuel), the denotation
+   terminates on that much fuel, with the same observation; in particular the machine never gets stuck *)
+Theorem compile_raw_converse : forall q code, compile_raw q = Some code ->
+  forall v f outs e, run nt code f (init code v) = (outs, e) -> e <> OutOfFuel ->
+  snd (den nt f q [] v) <> Some XFuel /\ run_is (den nt f q [] v) (outs, e).
+Proof.
+  intros q code Hc v f outs e Hr He.
+  assert (Hnf : snd (den nt f q [] v) <> Some XFuel).
+  { intros EF. pose proof (compile_raw_fuel q code Hc f v EF f ltac:(lia)) as H. rewrite Hr in H. simpl in H. congruence. }
+  split; [exact Hnf|].
+  destruct (compile_raw_correct q code Hc f v) as (f2 & H2).
+  destruct (run nt code f2 (init code v)) as [o2 e2] eqn:E2.
+  assert (He2 : e2 <> OutOfFuel).
+  { unfold run_is in H2. destruct (snd (den nt f q [] v)) as [[x|l|]|]; try contradiction; try congruence; inversion H2; subst; discriminate. }
+  pose proof (run_mono code f _ _ _ Hr He (Nat.max f f2) (Nat.le_max_l _ _)) as M1.
+  pose proof (run_mono code f2 _ _ _ E2 He2 (Nat.max f f2) (Nat.le_max_r _ _)) as M2.
+  rewrite M1 in M2. inversion M2; subst. exact H2.
+Qed.
+
+Corollary compile_raw_never_stuck : forall q code, compile_raw q = Some code ->
+  forall v f, snd (run nt code f (init code v)) <> IsStuck.
+Proof.
+  intros q code Hc v f H. destruct (run nt code f (init code v)) as [outs e] eqn:Er. simpl in H. subst e.
+  destruct (compile_raw_converse q code Hc v f outs IsStuck Er ltac:(discriminate)) as [Hnf Hri].
+  unfold run_is in Hri. destruct (snd (den nt f q [] v)) as [[x|l|]|]; try contradiction; try congruence; inversion Hri.
 Qed.
 End Top.
